@@ -15,7 +15,7 @@ from . import common
 FACTS = common.CODEGEN_FILES
 
 
-def ref_lr(inp, ops, name="LR", skipws=True):
+def ref_lr(inp, ops, name="LR", skipws=True, style="direct"):
     """independent reference for  NAME = left:*NAME op n:Num | ... | n:Num  (Num = ASCII digits; whitespace is
     skipped before every token unless the rule is @no_skip_ws): match Num, then greedily  op Num ; the tree is
     nested to the left.  Returns (tree, end) or None"""
@@ -35,7 +35,10 @@ def ref_lr(inp, ops, name="LR", skipws=True):
     r = num(i)
     if not r:
         return None
-    tree = ("struct", name, [("left", ("none",)), ("n", ("str", r[0].encode()))])
+    if style == "indirect":     # LX = @:LAd | @:Num;  LAd = left:*LX '+' right:Num
+        tree = ("enum", "Num", ("str", r[0].encode()))
+    else:
+        tree = ("struct", name, [("left", ("none",)), ("n", ("str", r[0].encode()))])
     end = r[1]
     while True:
         j = skip(end)
@@ -44,14 +47,18 @@ def ref_lr(inp, ops, name="LR", skipws=True):
             r = num(k)
             if not r:
                 break
-            tree = ("struct", name, [("left", ("some", tree)), ("n", ("str", r[0].encode()))])
+            if style == "indirect":
+                tree = ("enum", "LAd", ("struct", "LAd", [("left", tree), ("right", ("str", r[0].encode()))]))
+            else:
+                tree = ("struct", name, [("left", ("some", tree)), ("n", ("str", r[0].encode()))])
             end = r[1]
         else:
             break
     return tree, end
 
 
-USUAL = {"LR": ("+", True), "LRS": ("+-", True), "LRN": ("+", False)}      # corpus/grammars/leftrec_usual_shape.ebnf
+# corpus/grammars/leftrec_usual_shape.ebnf: (operators, skips whitespace, style)
+USUAL = {"LR": ("+", True, "direct"), "LRS": ("+-", True, "direct"), "LRN": ("+", False, "direct"), "LX": ("+", True, "indirect")}
 
 
 def find_lr(tree):
@@ -147,7 +154,8 @@ def check(out, ctx):
                 out.violation("c07ref:%s" % c.inp, "left-recursive rule grew %d levels on %r, the longest match has %d" % (n, c.inp, want),
                               common.case_payload(c, st))
     # the closed form of the property text, independently of the model: corpus grammar leftrec_usual_shape has
-    # three exported rules of the shape  A = left:*A op n:Num | ... | n:Num ; the parser must accept exactly
+    # four exported rules - three of the shape  A = left:*A op n:Num | ... | n:Num  and one in the style of the
+    # documentation,  LX = @:LAd | @:Num; LAd = left:*LX '+' right:Num ; the parser must accept exactly
     # b x* (greedy) and nest to the left.  (Theorems C07_usual_body / C07_usual_parse: holds whenever nothing is
     # skipped between the entry of the rule and its recursive field; known finding c07:entered-before-whitespace
     # is the other case - a whitespace-skipping @leftrec rule entered where whitespace follows.)
@@ -156,8 +164,8 @@ def check(out, ctx):
     for c in st["cases"]:
         if c.g.meta.get("corpus") != "leftrec_usual_shape" or c.rule not in USUAL or c.impl["k"] not in ("OK", "ERR"):
             continue
-        ops, skipws = USUAL[c.rule]
-        want = ref_lr(c.inp, ops, c.rule, skipws)
+        ops, skipws, style = USUAL[c.rule]
+        want = ref_lr(c.inp, ops, c.rule, skipws, style)
         closed += 1
         got = strip_pos(c.impl["tree"]) if c.impl["k"] == "OK" else None
         if (want is None) != (got is None) or (want is not None and got != want[0]):
